@@ -40,6 +40,8 @@ struct FnDir {
     nocanary: bool,
     nopub: bool,
     hoist: Option<usize>,
+    /// `@@hoist k ~text`: the innermost closure containing `text` if exactly one does, else closure k
+    hoist_text: Option<String>,
     sig: Option<String>,
     inline_then: Vec<usize>,
     /// `@@tail name`: the tail expression of the function is bound (`let name = <tail>;`), the
@@ -62,6 +64,8 @@ struct FnDir {
     /// `@@closure ~text`: header for the innermost closure whose source text contains `text`
     /// (robust against reordering of closures, unlike ordinals)
     closures_by_text: Vec<(String, String)>,
+    /// `@@closure? ~text`: as `@@closure ~text`, but silently skipped when no closure contains `text`
+    closures_by_text_opt: Vec<bool>,
     /// `@@closure k ~text`: the innermost closure containing `text` if exactly one does, else closure k
     closures_pref: Vec<(usize, String, String)>,
     loops: HashMap<usize, String>,
@@ -227,6 +231,7 @@ fn parse_template(path: &Path, nodes: &mut Vec<Node>) {
                             "closures" => {
                                 d.closures.clear();
                                 d.closures_by_text.clear();
+                                d.closures_by_text_opt.clear();
                                 d.closures_pref.clear();
                             }
                             "pre" => d.pre.clear(),
@@ -241,7 +246,14 @@ fn parse_template(path: &Path, nodes: &mut Vec<Node>) {
                         "boolops" => d.boolops = true,
                         "nocanary" => d.nocanary = true,
                         "nopub" => d.nopub = true,
-                        "hoist" => d.hoist = Some(rest.parse().unwrap_or_else(|_| die(&format!("{sctx}: @@hoist needs closure ordinal")))),
+                        "hoist" => {
+                            let (k, t) = match rest.split_once('~') {
+                                Some((k, t)) => (k.trim().to_string(), Some(t.trim().to_string())),
+                                None => (rest.clone(), None),
+                            };
+                            d.hoist = Some(k.parse().unwrap_or_else(|_| die(&format!("{sctx}: @@hoist needs closure ordinal"))));
+                            d.hoist_text = t;
+                        }
                         "sig" => d.sig = Some(rest),
                         "tail" => d.tail = Some(rest),
                         "letrecv" => {
@@ -269,6 +281,12 @@ fn parse_template(path: &Path, nodes: &mut Vec<Node>) {
                         "spec" => d.spec = multiline(&mut i),
                         "pre" => d.pre = multiline(&mut i),
                         "post" => d.post = multiline(&mut i),
+                        "closure?" => {
+                            let anchor = rest.strip_prefix('~').unwrap_or_else(|| die(&format!("{sctx}: @@closure? needs ~text"))).trim().to_string();
+                            let s = multiline(&mut i);
+                            d.closures_by_text.push((anchor, s));
+                            d.closures_by_text_opt.push(true);
+                        }
                         "closure" => {
                             if let Some((k, anchor)) = rest.split_once('~').filter(|(k, _)| !k.trim().is_empty()) {
                                 let k: usize = k.trim().parse().unwrap_or_else(|_| die(&format!("{sctx}: @@closure k ~text: bad ordinal")));
@@ -278,6 +296,7 @@ fn parse_template(path: &Path, nodes: &mut Vec<Node>) {
                                 let anchor = anchor.trim().to_string();
                                 let s = multiline(&mut i);
                                 d.closures_by_text.push((anchor, s));
+                                d.closures_by_text_opt.push(false);
                             } else {
                                 let k: usize = rest.parse().unwrap_or_else(|_| die(&format!("{sctx}: @@closure needs ordinal or ~text")));
                                 let s = multiline(&mut i);
@@ -413,6 +432,10 @@ struct Ed<'a> {
     inline_entry_used: usize,
     letargs_used: Vec<usize>,
     letrecvs_used: Vec<usize>,
+    /// (loop ordinal, name of the loop variable) of `for name in ..` loops: `$loopK` in spliced text
+    loop_vars: Vec<(usize, String)>,
+    /// closures of the extracted text that received no contract header
+    closures_unspecified: usize,
     loops_used: Vec<usize>,
     befores_used: Vec<bool>,
     macros_used: Vec<bool>,
@@ -470,6 +493,8 @@ impl<'a> Ed<'a> {
             inline_entry_used: 0,
             letargs_used: vec![0; dir.letargs.len()],
             letrecvs_used: vec![0; dir.letrecvs.len()],
+            loop_vars: vec![],
+            closures_unspecified: 0,
             loops_used: vec![],
             befores_used: vec![false; dir.befores.len()],
             macros_used: vec![false; dir.macros.len()],
@@ -601,7 +626,12 @@ impl<'a, 'ast> Visit<'ast> for Ed<'a> {
             if anchor.starts_with('>') {
                 continue;
             }
-            if !self.befores_used[k] && anchor_match(txt, anchor.as_str()) {
+            // `$loopK` in a `@@before` anchor = the variable of `for` loop K (already visited)
+            let mut anchor_l = anchor.clone();
+            for (lk, name) in &self.loop_vars {
+                anchor_l = anchor_l.replace(&format!("$loop{lk}"), name);
+            }
+            if !self.befores_used[k] && anchor_match(txt, anchor_l.as_str()) {
                 self.befores_used[k] = true;
                 self.edits.push(Edit { start: r.start, end: r.start, text: format!("{ins}\n"), kind: "splice-before", swallow: false });
             }
@@ -859,6 +889,7 @@ impl<'a, 'ast> Visit<'ast> for Ed<'a> {
             // only the body is visited: the header is replaced wholesale
             self.visit_expr(&c.body);
         } else {
+            self.closures_unspecified += 1;
             if c.asyncness.is_some() {
                 self.errors.push(format!("async closure at line {}", line_of(self.src, start)));
             }
@@ -880,6 +911,9 @@ impl<'a, 'ast> Visit<'ast> for Ed<'a> {
     fn visit_expr_for_loop(&mut self, l: &'ast syn::ExprForLoop) {
         let idx = self.loop_idx;
         self.loop_idx += 1;
+        if let syn::Pat::Ident(pi) = &*l.pat {
+            self.loop_vars.push((idx, pi.ident.to_string()));
+        }
         if let Some(inv) = self.dir.loops.get(&idx) {
             self.loops_used.push(idx);
             let b = l.body.span().byte_range().start;
@@ -1179,6 +1213,24 @@ impl<'ast> Visit<'ast> for ClosureLister {
     }
 }
 
+/// `@@hoist k ~text`: ordinal of the innermost closure of the block containing `text` (if unique), else k
+fn resolve_hoist(block: &syn::Block, src: &str, k: usize, text: &Option<String>) -> usize {
+    if let Some(t) = text {
+        let mut cl = ClosureLister { all: vec![] };
+        cl.visit_block(block);
+        let cands: Vec<usize> = (0..cl.all.len())
+            .filter(|&i| {
+                let (s, e) = cl.all[i];
+                src[s..e].contains(t.as_str()) && !cl.all.iter().any(|&(s2, e2)| s2 > s && e2 <= e && src[s2..e2].contains(t.as_str()))
+            })
+            .collect();
+        if cands.len() == 1 {
+            return cands[0];
+        }
+    }
+    k
+}
+
 /// does any closure nested in the visited expression contain the anchor text?
 struct NestedClosureTexts<'a> {
     src: &'a str,
@@ -1416,7 +1468,10 @@ fn main() {
                     d0.selector.clone()
                 };
                 let vsel = variants.get(&key_sel).copied().unwrap_or(0);
-                let d: &FnDir = if vsel == 0 || vsel > d0.alts.len() { d0 } else { &d0.alts[vsel - 1] };
+                if vsel > d0.alts.len() {
+                    die(&format!("{}:{} NO-SUCH-VARIANT {vsel} [key={}]: only {} contract variants", d0.tpl_file, d0.tpl_line, key_sel, 1 + d0.alts.len()));
+                }
+                let d: &FnDir = if vsel == 0 { d0 } else { &d0.alts[vsel - 1] };
                 let n_variants = 1 + d0.alts.len();
                 let key0 = if d.is_slice {
                     format!("{} @from:{}", d.selector, d.from.clone().unwrap_or_default())
@@ -1458,7 +1513,7 @@ fn main() {
                     // `$k` placeholders: the closure's own parameter names if it can still be found
                     let mut sg = d.sig.clone().unwrap_or_default();
                     let mut sp = if nospec { String::new() } else { d.spec.clone() };
-                    let mut cf = ClosureFinder { want: d.hoist.unwrap_or(0), seen: 0, found: None };
+                    let mut cf = ClosureFinder { want: resolve_hoist(f.block, &src.text, d.hoist.unwrap_or(0), &d.hoist_text), seen: 0, found: None };
                     cf.visit_block(f.block);
                     for k in 0..10 {
                         let mut name = format!("vx_p{k}");
@@ -1471,7 +1526,7 @@ fn main() {
                         sg = sg.replace(&format!("${k}"), &name);
                         sp = sp.replace(&format!("${k}"), &name);
                     }
-                    output.push_str(&format!("// vx:STUBBED {} {} — contract kept as ASSUMED, body UNVERIFIED\n#[verifier::external_body]\n{}\n{}{{ unimplemented!() }}\n", d.file, d.selector, sg, sp));
+                    output.push_str(&format!("// vx:fn {} {} (src lines 0-0)\n// vx:STUBBED {} {} — contract kept as ASSUMED, body UNVERIFIED\n#[verifier::external_body]\n{}\n{}{{ unimplemented!() }}\n", d.file, stub_key, d.file, d.selector, sg, sp));
                     fn_maps.push(serde_json::json!({"selector": d.selector, "file": d.file, "slice": false, "name": hoist_name, "stubbed": true,
                         "src_lines": [0,0], "out_lines": [0,0], "awaits_erased": 0, "closures": 0, "loops": 0, "has_requires": false, "edits": {}}));
                     continue;
@@ -1525,6 +1580,7 @@ fn main() {
                 if let Some(k) = d.hoist {
                     // E11: closure literal #k of the function is emitted as a named function; the
                     // signature is hand-written (closure parameter types are inferred in the source)
+                    let k = resolve_hoist(f.block, &src.text, k, &d.hoist_text);
                     let mut cf = ClosureFinder { want: k, seen: 0, found: None };
                     cf.visit_block(f.block);
                     let c = cf.found.unwrap_or_else(|| die(&format!("{ctx}: closure#{k} to hoist not found ({} closures)", cf.seen)));
@@ -1776,6 +1832,10 @@ fn main() {
                     src_range = (sig_lo, blk_r.end);
                 }
                 let mut text = emitted;
+                // `$loopK` = the name the source gives to the variable of `for` loop K
+                for (k, name) in &ed.loop_vars {
+                    text = text.replace(&format!("$loop{k}"), name);
+                }
                 for (a, b) in &d.substs {
                     if !text.contains(a.as_str()) {
                         die(&format!("{ctx}: @@subst pattern not found: {a}"));
@@ -1802,7 +1862,7 @@ fn main() {
                     "awaits_erased": ed.awaits,
                     "closures": ed.closure_idx, "loops": ed.loop_idx,
                     "has_requires": spec_has_requires(&d.spec),
-                    "key": key_sel, "variants": n_variants, "variant": vsel,
+                    "key": key_sel, "variants": n_variants, "variant": vsel, "closures_unspecified": ed.closures_unspecified,
                     "stubbed": stub_this,
                     "edits": counts,
                 }));
@@ -1830,6 +1890,9 @@ fn check_used(ed: &Ed, d: &FnDir, ctx: &str) {
         }
     }
     for (n, (anchor, _)) in d.closures_by_text.iter().enumerate() {
+        if d.closures_by_text_opt.get(n).copied().unwrap_or(false) && ed.closures_by_text_used[n] == 0 {
+            continue;
+        }
         if ed.closures_by_text_used[n] != 1 {
             die(&format!("{ctx}: @@closure ~{anchor}: {} closures match (exactly one expected)", ed.closures_by_text_used[n]));
         }
